@@ -155,10 +155,7 @@ impl DMat2 {
     /// Panics if `slice` is less than 4 elements long.
     #[inline]
     pub fn write_cols_to_slice(self, slice: &mut [f64]) {
-        slice[0] = self.x_axis.x;
-        slice[1] = self.x_axis.y;
-        slice[2] = self.y_axis.x;
-        slice[3] = self.y_axis.y;
+        slice[..4].copy_from_slice(&self.to_cols_array());
     }
 
     /// Returns the matrix column for the given `index`.
